@@ -106,6 +106,9 @@ func drawQueryScenario(c *choice.Stream, cf *Conf) *queryScenario {
 		rows0 := 0
 		if c.Bool("in.initial", 2, 3) {
 			rows0 = c.Range("in.rows0", 1, 5)
+			if c.Bool("in.rows0.big", 1, 12) {
+				rows0 = c.Pick("in.rows0.bigrows", 600, 3000, 9000)
+			}
 		}
 		plan.Initial = drawRoundVals(c, sc.cols, rows0)
 		streamed := c.Bool("in.streamed", 2, 3)
